@@ -2,6 +2,8 @@ package props
 
 import (
 	"fmt"
+	"go/ast"
+	"go/types"
 	"strings"
 
 	"octoverif/core"
@@ -9,19 +11,47 @@ import (
 )
 
 // concreteValueMissingOK: a concrete octosql.Value never has TypeID Union or Any.
-func missingAllowed(es *unionfield.EnumSwitch, tag string) []string {
+func missingAllowed(es *unionfield.EnumSwitch, tag string, valueLevel bool) []string {
 	var out []string
 	for _, m := range es.Missing {
 		if es.Enum.Named.Obj().Name() == "TypeID" && (m == "TypeIDAny") {
 			continue // Any only appears in function signatures, never in a value or a concrete plan type
+		}
+		if es.Enum.Named.Obj().Name() == "TypeID" && m == "TypeIDUnion" && valueLevel {
+			continue // a concrete value never carries TypeIDUnion (only types do)
 		}
 		out = append(out, m)
 	}
 	return out
 }
 
+// valueLevelTag: the switch inspects the TypeID of a value (octosql.Value or its protobuf mirror), not of a type.
+func valueLevelTag(info *types.Info, tag ast.Expr) bool {
+	found := false
+	ast.Inspect(tag, func(n ast.Node) bool {
+		sel, ok := n.(*ast.SelectorExpr)
+		if !ok || (sel.Sel.Name != "TypeID" && sel.Sel.Name != "TypeId") {
+			return true
+		}
+		if tv, ok := info.Types[sel.X]; ok {
+			t := tv.Type
+			if pt, ok := t.(*types.Pointer); ok {
+				t = pt.Elem()
+			}
+			if n, ok := t.(*types.Named); ok && n.Obj().Name() == "Value" {
+				found = true
+			}
+		}
+		return true
+	})
+	return found
+}
+
 // checkEnumSwitches runs PAN5 and UNI1 over the functions of the given packages
 // (optionally restricted by a function-name filter).
+// uni1IndexedOnly restricts UNI1 reports to wrong-arm payloads that are indexed (a crash), used by C07.
+var uni1IndexedOnly = false
+
 func checkEnumSwitches(c *core.Ctx, pkgs []string, filter func(name string) bool) (nSwitch, nRegion int) {
 	p := c.Prog
 	unions := unionfield.Unions(p)
@@ -44,12 +74,23 @@ func checkEnumSwitches(c *core.Ctx, pkgs []string, filter func(name string) bool
 			}
 			nSwitch++
 			c.SawFunc(name)
-			miss := missingAllowed(es, tag)
+			miss := missingAllowed(es, tag, valueLevelTag(fn.Info(), es.Tag))
 			c.Decide(len(miss) == 0, "PAN5", key, es.Stmt.Pos(), len(es.Enum.Consts),
 				fmt.Sprintf("lists all %d constants of %s", len(es.Enum.Consts), es.Enum.Named.Obj().Name()),
 				fmt.Sprintf("%s, so every %s must have a case; missing: %s — a plan/value of that kind reaches the panic", es.AssertsWhy, es.Enum.Named.Obj().Name(), strings.Join(miss, ", ")))
 		}
 		vs, stats := unionfield.ArmViolations(p, fn, unions)
+		if uni1IndexedOnly {
+			var kept []unionfield.ArmViolation
+			for _, v := range vs {
+				if v.Indexed {
+					kept = append(kept, v)
+				} else {
+					c.Note("%s: `%s` touches %s.%s (arm payload is .%s) without indexing it — no crash; reported under the property it affects", name, v.Context, v.Path, v.Field, v.Want)
+				}
+			}
+			vs = kept
+		}
 		if stats.Regions > 0 {
 			nRegion += stats.Regions
 			c.SawFunc(name)
